@@ -16,6 +16,7 @@ import (
 	"tunnox-core/internal/cloud/services"
 	coreerrors "tunnox-core/internal/core/errors"
 	"tunnox-core/internal/core/idgen"
+	"tunnox-core/internal/core/storage"
 	"tunnox-core/internal/core/storage/hybrid"
 	stypes "tunnox-core/internal/core/storage/types"
 	"tunnox-core/verif/vkit"
@@ -64,6 +65,32 @@ func (s *selCache) SetNX(k string, v any, ttl time.Duration) (bool, error) {
 	return s.GateCache.SetNX(k, v, ttl)
 }
 
+// list operations (only reached when the gated memory backend is the Storage itself)
+func (s *selCache) GetList(k string) ([]any, error) {
+	if !s.sel(k) {
+		return s.GateCache.Storage.GetList(k)
+	}
+	return s.GateCache.GetList(k)
+}
+func (s *selCache) SetList(k string, v []any, ttl time.Duration) error {
+	if !s.sel(k) {
+		return s.GateCache.Storage.SetList(k, v, ttl)
+	}
+	return s.GateCache.SetList(k, v, ttl)
+}
+func (s *selCache) AppendToList(k string, v any) error {
+	if !s.sel(k) {
+		return s.GateCache.Storage.AppendToList(k, v)
+	}
+	return s.GateCache.AppendToList(k, v)
+}
+func (s *selCache) RemoveFromList(k string, v any) error {
+	if !s.sel(k) {
+		return s.GateCache.Storage.RemoveFromList(k, v)
+	}
+	return s.GateCache.RemoveFromList(k, v)
+}
+
 type qnode struct {
 	pms services.PortMappingService
 	cc  *services.ConnectionCodeService
@@ -73,11 +100,17 @@ type qworld struct {
 	cancel context.CancelFunc
 	g      *vkit.Gate
 	cache  *vkit.GateCache
-	store  *hybrid.Storage
+	store  storage.Storage
 	nodes  []*qnode
 }
 
 func newQWorld(nNodes int, cfg *services.ConnectionCodeServiceConfig, gated bool, sel func(string) bool) *qworld {
+	return newQWorldOn("hybrid", nNodes, cfg, gated, sel)
+}
+
+// backend "hybrid": hybrid.Storage over the gated memory backend; "memory": the gated memory backend used
+// directly as the Storage (its list operations are then single atomic steps).
+func newQWorldOn(backend string, nNodes int, cfg *services.ConnectionCodeServiceConfig, gated bool, sel func(string) bool) *qworld {
 	ctx, cancel := context.WithCancel(context.Background())
 	w := &qworld{cancel: cancel}
 	if gated {
@@ -89,7 +122,14 @@ func newQWorld(nNodes int, cfg *services.ConnectionCodeServiceConfig, gated bool
 	if sel != nil {
 		tier = &selCache{GateCache: w.cache, sel: sel}
 	}
-	w.store = hybrid.NewWithSharedCache(ctx, tier, nil, nil, hybrid.DefaultConfig())
+	if backend == "memory" {
+		if sel == nil {
+			sel = func(string) bool { return true }
+		}
+		w.store = &selCache{GateCache: w.cache, sel: sel}
+	} else {
+		w.store = hybrid.NewWithSharedCache(ctx, tier, nil, nil, hybrid.DefaultConfig())
+	}
 	for i := 0; i < nNodes; i++ {
 		repo := repos.NewRepository(w.store)
 		pmRepo := repos.NewPortMappingRepo(repo)
